@@ -1,8 +1,8 @@
 package main
 
 import (
-	"go/types"
 	"go/token"
+	"go/types"
 	"strings"
 
 	"golang.org/x/tools/go/ssa"
